@@ -70,6 +70,18 @@ def ints(s):
     return [int(x) for x in s.split(",") if x != ""]
 
 
+def parse_ops(v):
+    ops = []
+    for o in v.split(";"):
+        if o in ("", "-"):
+            continue
+        if o == "P":
+            ops.append(None)
+        else:
+            ops.append([ints(p) for p in o[2:].split("|")])
+    return ops
+
+
 def parse_spec(line):
     toks = line.split()
     t = {"id": int(toks[1]), "ty": toks[2], "spec": line, "states": {}, "pstates": {}, "vdist": {}, "panic": None}
@@ -85,15 +97,9 @@ def parse_spec(line):
         elif k == "z0":
             t["z0b"] = [ints(p) for p in v.split("|")]
         elif k == "ops":
-            ops = []
-            for o in v.split(";"):
-                if o == "":
-                    continue
-                if o == "P":
-                    ops.append(None)
-                else:
-                    ops.append([ints(p) for p in o[2:].split("|")])
-            t["opsb"] = ops
+            t["opsb"] = parse_ops(v)
+        elif k == "hist":
+            t["histb"] = [parse_ops(h) for h in v.split("/")]
     t.setdefault("opsb", [])
     return t
 
@@ -141,7 +147,13 @@ def tracks_of(trajs):
         for pt, states in sorted(t["states"].items()):
             fty = "box" if t["ty"] == "box" else "point"
             ops = [None if o is None else unbits(o[pt]) for o in t["opsb"]]
-            tracks.append({"tid": (t["id"], pt), "ty": fty, "hty": t["ty"], "kind": t.get("kind", "?"),
+            must = []
+            if t["ty"] == "hvec":
+                # private history of this point, then the joint operations on the assembled vector
+                own = [None if o is None else unbits(o[0]) for o in t["histb"][pt]]
+                must = list(range(len(own), len(own) + len(ops) + 1))     # states produced / measured by the VECTOR API
+                ops = own + ops
+            tracks.append({"must_steps": must,"tid": (t["id"], pt), "ty": fty, "hty": t["ty"], "kind": t.get("kind", "?"),
                            "wp": t["wp"], "wv": t["wv"], "wpb": t["wpb"], "wvb": t["wvb"], "rot": t.get("rot", False),
                            "z0": unbits(t["z0b"][pt]), "ops": ops, "states": states, "spec": t["spec"],
                            "n": 5 if fty == "box" else 2})
@@ -554,6 +566,85 @@ def cost_checks(costs, chi2_dec):
 
 # ------------------------------------------------------------------------------------------------------------
 
+def vec_pointwise_failures(trajs):
+    """vector filter (st) vs stand-alone point filter (pst) on every element, bit for bit: mean, covariance,
+    distance; and Vec2DKalmanFilter::calculate_cost vs Point2DKalmanFilter::calculate_cost on every distance"""
+    bad = []
+    cmp = 0
+    for t in trajs.values():
+        if t["ty"] not in ("vec", "hvec"):
+            continue
+        for pt, sts in sorted(t["states"].items()):
+            ps = {r["step"]: r for r in t["pstates"].get(pt, [])}
+            for st in sts:
+                cmp += 1
+                p = ps.get(st["step"])
+                if p is None:
+                    bad.append((t, pt, st["step"], "no point-filter record", st, None))
+                    break
+                what = None
+                if st["meanb"] != p["meanb"]:
+                    what = "mean"
+                elif st["covb"] != p["covb"]:
+                    what = "covariance"
+                elif st["distb"] != p["distb"]:
+                    what = "distance"
+                if what:
+                    bad.append((t, pt, st["step"], what, st, p))
+                    break
+        for step, r in sorted(t["vdist"].items()):
+            if "pdirect" in r and (r["direct"] != r["pdirect"] or r["inverted"] != r["pinverted"]):
+                bad.append((t, -1, step, "calculate_cost", {"mean": None, "dist": None}, None))
+    return bad, cmp
+
+
+def hvec_spec(t, keep, hist_len, njoint):
+    """spec line of a heterogeneous vector history restricted to the points `keep`, private histories truncated to
+    hist_len[k] operations and the first njoint joint operations"""
+    def b(xs):
+        return ",".join(str(x) for x in xs)
+    def ops_s(ops):
+        return ";".join("P" if o is None else "U:" + "|".join(b(p) for p in o) for o in ops) or "-"
+    z0 = "|".join(b(t["z0b"][k]) for k in keep)
+    hist = "/".join(ops_s(t["histb"][k][:hist_len[k]]) for k in keep)
+    joint = [None if o is None else [o[k] for k in keep] for o in t["opsb"][:njoint]]
+    return "spec 0 hvec kind=replay wp=%d wv=%d rot=0 z0=%s ops=%s hist=%s" % (t["wpb"], t["wvb"], z0, ops_s(joint), hist)
+
+
+def shrink_hvec(t, pt):
+    """smallest heterogeneous vector (two points, shortest private histories, no joint operations if possible) on
+    which the vector filter still differs from the point filters"""
+    def fails(spec):
+        trajs, _ = replay_spec(spec)
+        bad, _ = vec_pointwise_failures(trajs)
+        return bad[0] if bad else None
+    n = len(t["z0b"])
+    full = {k: len(t["histb"][k]) for k in range(n)}
+    best = None
+    cands = [[0, pt]] if pt not in (0, -1) else [[0, k] for k in range(1, n)]
+    cands.append(list(range(n)))
+    for keep in cands:
+        for nj in (0, len(t["opsb"])):
+            spec = hvec_spec(t, keep, full, nj)
+            r = fails(spec)
+            if r is None:
+                continue
+            hl = dict(full)
+            # shorten the private histories greedily, one point at a time
+            for k in keep:
+                for L in range(0, full[k]):
+                    trial = dict(hl)
+                    trial[k] = L
+                    r2 = fails(hvec_spec(t, keep, trial, nj))
+                    if r2 is not None:
+                        hl = trial
+                        r = r2
+                        break
+            best = (hvec_spec(t, keep, hl, nj), r, keep, hl)
+            return best
+    return best
+
+
 def run_harness(args):
     rc, out, err = vlib.harness_run("kalman", args)
     return rc, out, err
@@ -633,6 +724,9 @@ def run(chk):
         hist["%s:%s" % (t["ty"], t.get("kind", "?"))] += 1
         L = len(t["opsb"])
         hist["len<=10" if L <= 10 else ("len<=100" if L <= 100 else "len<=400")] += 1
+        if t["ty"] == "hvec":
+            lens = sorted(len(h) for h in t["histb"])
+            hist["hvec:history-spread>=5" if lens[-1] - lens[0] >= 5 else "hvec:history-spread<5"] += 1
         if (t["wpb"], t["wvb"]) == (1028443341, 1003277517):
             hist["default-weights"] += 1
 
@@ -663,25 +757,32 @@ def run(chk):
     chk.log("oracle: %d failing tracks; worst error/allowance: %s; off-structure non-zero entries: %d"
             % (len({x[0] for x in oracle_fail}), {k: round(v, 3) for k, v in worst.items()}, offstruct))
 
-    # vector filter = point filters, bit for bit
-    vec_bad = []
-    vec_cmp = 0
-    for t in trajs.values():
-        if t["ty"] != "vec":
-            continue
-        for pt, sts in t["states"].items():
-            ps = t["pstates"].get(pt, [])
-            for k, st in enumerate(sts):
-                vec_cmp += 1
-                if k >= len(ps) or st["meanb"] != ps[k]["meanb"] or st["covb"] != ps[k]["covb"] or st["distb"] != ps[k]["distb"]:
-                    vec_bad.append((t, pt, k))
-                    break
+    # vector filter = point filters on every element, bit for bit (states, distance, cost), incl. vectors
+    # assembled from points with heterogeneous histories
+    vec_bad, vec_cmp = vec_pointwise_failures(trajs)
     if vec_bad:
-        t, pt, k = vec_bad[0]
+        t, pt, k, what, st, p = vec_bad[0]
+        rep = {"spec": t["spec"], "point": pt, "step": k, "differs_in": what,
+               "vector_filter": {"mean": st.get("mean"), "distance": st.get("dist")},
+               "point_filter": ({"mean": p.get("mean"), "distance": p.get("dist")} if p else None),
+               "failing_histories": len({id(x[0]) for x in vec_bad})}
+        if t["ty"] == "hvec":
+            try:
+                sh = shrink_hvec(t, pt)
+            except Exception as e:      # noqa: BLE001
+                chk.log("hvec shrink failed: %r" % (e,))
+                sh = None
+            if sh is not None:
+                spec, r, keep, hl = sh
+                rep.update({"spec": spec, "original_history": t["spec"][:1500], "points_kept": keep,
+                            "private_history_lengths": {str(k): v for k, v in hl.items()},
+                            "point": r[1], "step": r[2], "differs_in": r[3],
+                            "vector_filter": {"mean": r[4].get("mean"), "distance": r[4].get("dist")},
+                            "point_filter": ({"mean": r[5].get("mean"), "distance": r[5].get("dist")} if r[5] else None)})
+        rep["replay_cmd"] = "./check C07 --replay <this file>"
         violations.append(("C07:vec-not-pointwise",
-                           "Vec2DKalmanFilter: point %d at step %d differs from the stand-alone Point2DKalmanFilter run on the same measurements" % (pt, k),
-                           {"spec": t["spec"], "point": pt, "step": k,
-                            "vector_state": t["states"][pt][k]["mean"], "point_filter_state": (t["pstates"].get(pt, [{}] * (k + 1))[k].get("mean") if k < len(t["pstates"].get(pt, [])) else None)}))
+                           "Vec2DKalmanFilter: %s of element %s at step %s differs from the stand-alone Point2DKalmanFilter on the same state / measurements"
+                           % (rep["differs_in"], rep["point"], rep["step"]), rep))
 
     # cost conversion
     chi2 = [Fraction(x) for x in ["3.8415", "5.9915", "7.8147", "9.4877", "11.070", "12.592", "14.067", "15.507", "16.919"]]
@@ -733,7 +834,9 @@ def run(chk):
         "histories": len(trajs), "tracks": len(tracks), "states_checked": nstates, "cost_probes": len(costs),
         "distinct_nontrivial": len(nontrivial),
         "rule": "histories of 1-400 predict/update operations (tracker pattern predict+update, missed detections, random "
-                "interleavings) for the box, point and vector filters: stationary, constant velocity, accelerating, jittering, "
+                "interleavings) for the box, point and vector filters, plus vectors ASSEMBLED from points with heterogeneous private "
+                "histories (initiated at different times, occluded = predict-only gaps, different numbers of updates) on which "
+                "distance / calculate_cost / predict / update of the vector filter are compared element-wise with the point filter: stationary, constant velocity, accelerating, jittering, "
                 "shrinking/growing, rotating; coordinates and heights 1..1e4; weights: defaults 1/20,1/160 (40%), 0.1/0.1, and "
                 "position 1/80..1/4 x velocity 1/640..1/8. non-trivial = a track with at least one update whose measurements "
                 "are not all equal to the first one; distinct by (history, point). EVERY state of every track is checked by "
@@ -745,7 +848,7 @@ def run(chk):
         "oracle_worst_error_over_allowance": worst,
         "oracle_failures": len(oracle_fail),
         "offstructure_nonzero_entries_in_implementation": offstruct,
-        "vector_states_compared_bitwise": vec_cmp,
+        "vector_states_compared_bitwise": vec_cmp, "vector_pointwise_failures": len(vec_bad),
         "model": stats, "model_worst_error_over_allowance": wr,
         "model_vs_impl_disagreements": len(disagreements),
         "cost_identity_failures": len(ident_fail),
@@ -768,7 +871,7 @@ def run(chk):
             seen.add(cls)
             sh = None
             try:
-                sh = shrink_track(tr, step, key)
+                sh = shrink_track(tr, step, key) if not (tr["hty"] == "hvec" and step in tr.get("must_steps", [])) else None
             except Exception as e:      # noqa: BLE001 - shrinking is best effort
                 chk.log("shrink failed: %r" % (e,))
             if sh is not None:
@@ -779,8 +882,9 @@ def run(chk):
                        "implementation_state": {"mean": t2["states"][f2[0]]["mean"], "cov": t2["states"][f2[0]]["cov"]},
                        "original_history": tr["spec"][:2000], "original_step": step}
             else:
-                rep = {"spec": single_spec(tr, nops=step), "step": step, "oracle": key, "detail": detail,
-                       "note": "the shrunk history did not reproduce; this is the full prefix"}
+                rep = {"spec": (tr["spec"] if tr["hty"] == "hvec" else single_spec(tr, nops=step)), "step": step,
+                       "point": tr["tid"][1], "oracle": key, "detail": detail,
+                       "note": "not shrunk (vector-filter specific, see the vec-not-pointwise replay) or the shrunk history did not reproduce"}
             rep["replay_cmd"] = "./check C07 --replay <this file>"
             rep["broken"] = chk.broken
             violations.append((cls, "%s filter: %s" % (tr["ty"], detail), rep))
@@ -803,7 +907,7 @@ def model_stage(chk, tracks, cost_by, stats, wr, disagreements):
     meta = []
     for ti, tr in enumerate(tracks):
         L = len(tr["states"]) - 1
-        cs = pick_covsteps(L, ti + 1)
+        cs = sorted(set(pick_covsteps(L, ti + 1)) | {k for k in tr.get("must_steps", []) if k <= L})
         tr["covsteps"] = cs
         if tr["kind"].startswith("q-"):
             exprs.append(case_expr(tr, "Q", cs))
@@ -847,7 +951,7 @@ def model_stage(chk, tracks, cost_by, stats, wr, disagreements):
     meta = []
     for ti, tr in enumerate(tracks):
         N = 2 * tr["n"]
-        for k in sorted(set(tr["covsteps"][::5] + tr["covsteps"][-1:])):
+        for k in sorted(set(tr["covsteps"][::5] + tr["covsteps"][-1:]) | {k for k in tr.get("must_steps", []) if k < len(tr["states"])}):
             st = tr["states"][k]
             if not (finite(st["mean"]) and finite(st["cov"])):
                 stats["nonfinite_states_skipped"] = stats.get("nonfinite_states_skipped", 0) + 1
@@ -968,14 +1072,12 @@ def replay(chk, path):
         if t["panic"] is not None:
             print("panic at step %d: %s" % t["panic"])
             bad = True
-        if t["ty"] == "vec":
-            for pt, sts in t["states"].items():
-                ps = t["pstates"].get(pt, [])
-                for k, st in enumerate(sts):
-                    if k >= len(ps) or st["meanb"] != ps[k]["meanb"] or st["covb"] != ps[k]["covb"]:
-                        print("vector filter point %d differs from the point filter at step %d" % (pt, k))
-                        bad = True
-                        break
+    vb, _ = vec_pointwise_failures(trajs)
+    for (t, pt, k, what, st, p) in vb:
+        print("vector filter: %s of element %s differs from the point filter at step %s: %r vs %r"
+              % (what, pt, k, st.get("dist") if what == "distance" else st.get("mean"),
+                 (p or {}).get("dist") if what == "distance" else (p or {}).get("mean")))
+        bad = True
     for tr in tracks_of(trajs):
         _, fails, worst, _ = oracle_track(tr)
         for f in fails:
